@@ -16,6 +16,7 @@
                       frames it does not list; without a time index every active non-chunk frame
     timelineIds       … sorted by (timestamp, id), entries of non-Active frames skipped (unbounded query:
                       no since/until/limit, which only remove entries)
+    replayIds         search/api.rs get_replay_frame_ids (candidate filter of a time-travel search)
     codeSearchHits / codeVecHits / codeTimelineIds   the variant the CURRENT source tree has, selected by
                       the code-shape flags tools/gen/C08.py reads from the sources (Gen/C08.lean)
 -/
@@ -55,6 +56,13 @@ def codeSearchHits (frames : List Frame) (answer : List Nat) : List Nat :=
 def codeVecHits (frames : List Frame) (answer : List Nat) : List Nat :=
   vecHits Mv.Gen.C08.VEC_SEARCH_STATUS_TEST frames answer
 def codeTimelineIds (m : Mem) : List Nat := timelineIds Mv.Gen.C08.TIMELINE_STATUS_TEST m
+
+/-- `get_replay_frame_ids` (the candidate set of a time-travel search: `as_of_frame` / `as_of_ts`):
+    Active frames with id ≤ the frame bound and timestamp ≤ the time bound -/
+def replayIds (frames : List Frame) (asOfFrame : Option Nat) (asOfTs : Option Int) : List Nat :=
+  (frames.filter (fun f => f.status == .active &&
+      (match asOfFrame with | some c => decide (f.id ≤ c) | none => true) &&
+      (match asOfTs with | some c => decide (f.ts ≤ c) | none => true))).map (·.id)
 
 /-- ids of the frames the committed table marks Superseded or Deleted -/
 def inactiveIds (frames : List Frame) : List Nat :=
